@@ -77,6 +77,10 @@ class _Future(Future):
                     return False
             finally:
                 self._me_cancelling = False
+            if self.cancelled():
+                # Cancelling the delegate ran callbacks which cancelled us
+                # re-entrantly (same thread); that call did everything.
+                return True
             out = super(_Future, self).cancel()
             if out:
                 self.set_running_or_notify_cancel()
